@@ -144,37 +144,47 @@ def transformSection (sec : String) (entries : Section) : Except Err SGroup :=
     let files := entries.filter (fun kv => containsSub kv.1 "ProductFileName")
     let shapes := entries.filter (fun kv => !containsSub kv.1 "ProductFileName" && (kv.1.startsWith "NoOfPixels" || kv.1.startsWith "NoOfLines"))
     let other := entries.filter (fun kv => !containsSub kv.1 "ProductFileName" && !(kv.1.startsWith "NoOfPixels" || kv.1.startsWith "NoOfLines"))
-    let attrs ← other.mapM (fun (k, v) =>
+    let otherR : Except Err Attrs := other.mapM (fun (k, v) =>
       if k = "BitPixel" then (pyIntStr v).map (fun i => (k, SVal.int i))
       else if k = "ProductDataSize" then (pyFloatStr v).map (fun t => (k, SVal.float t))
       else pure (k, SVal.text v))
-    let mut groups : List (String × Attrs) := []
-    if !files.isEmpty then
-      -- `categorize_filenames` (repaired code): roles by the numbered key, not by line order
+    -- `categorize_filenames` (repaired code): roles by the numbered key, not by line order
+    let filesR : Except Err (List (String × Attrs)) :=
+      if files.isEmpty then .ok [] else
       let names := ((files.filter (fun kv => !kv.1.startsWith "Cnt")).mergeSort (fun a b => a.1 ≤ b.1)).map Prod.snd
       match names with
       | vol :: led :: rest =>
         match rest.reverse with
         | trl :: imgsRev =>
-          groups := groups ++ [("data_files", [("volume_directory", .text vol), ("sar_leader", .text led),
-                                             ("sar_imagery", .texts imgsRev.reverse), ("sar_trailer", .text trl)])]
-        | [] => throw .value
-      | _ => throw .value
-    if !shapes.isEmpty then
+          .ok [("data_files", [("volume_directory", .text vol), ("sar_leader", .text led),
+                               ("sar_imagery", .texts imgsRev.reverse), ("sar_trailer", .text trl)])]
+        | [] => .error .value
+      | _ => .error .value
+    let shapesR : Except Err (List (String × Attrs)) :=
+      if shapes.isEmpty then .ok [] else
+      -- `groupby(lambda it: second(it[0]), ...)`: a key without '_' has no second part — `second` raises StopIteration
+      if shapes.any (fun (kv : String × String) => (kv.1.splitOn "_").length < 2) then .error .other else
       -- keys `NoOfPixels_<i>` / `NoOfLines_<i>` grouped by index (first-seen order): `(pixels, lines)`
-      let idxs := shapes.foldl (fun acc kv => let i := ((kv.1.splitOn "_").getD 1 ""); if acc.contains i then acc else acc ++ [i]) ([] : List String)
-      let tuples ← idxs.mapM (fun i => do
+      let idxs := shapes.foldl (fun (acc : List String) (kv : String × String) => let i := ((kv.1.splitOn "_").getD 1 ""); if acc.contains i then acc else acc ++ [i]) ([] : List String)
+      (idxs.mapM (fun (i : String) => do
         let get (name : String) : Except Err Int :=
-          match shapes.find? (fun kv => kv.1.splitOn "_" = [name, i]) with
+          match shapes.find? (fun (kv : String × String) => kv.1.splitOn "_" = [name, i]) with
           | some kv => pyIntStr kv.2
           | none => .error .key
-        pure (i, SVal.ints [← get "NoOfPixels", ← get "NoOfLines"]))
-      groups := groups ++ [("shapes", tuples)]
-    -- the dict order of the categorised groups follows first occurrence in the section
-    let firstKind := entries.filterMap (fun kv =>
-      if containsSub kv.1 "ProductFileName" then some "data_files"
-      else if kv.1.startsWith "NoOfPixels" || kv.1.startsWith "NoOfLines" then some "shapes" else none)
-    let order := firstKind.foldl (fun acc k => if acc.contains k then acc else acc ++ [k]) ([] : List String)
+        pure (i, SVal.ints [← get "NoOfPixels", ← get "NoOfLines"]))).map (fun tuples => [("shapes", tuples)])
+    -- `apply_to_items(transformers, categorized)`: the categories are transformed in the order of their first occurrence in
+    -- the section (dict order of `groupby`), so that is also the order in which a malformed category raises
+    let kindOf (kv : String × String) : String :=
+      if containsSub kv.1 "ProductFileName" then "data_files"
+      else if kv.1.startsWith "NoOfPixels" || kv.1.startsWith "NoOfLines" then "shapes" else "other"
+    let allKinds := (entries.map kindOf).foldl (fun acc k => if acc.contains k then acc else acc ++ [k]) ([] : List String)
+    for k in allKinds do
+      if k = "data_files" then let _ ← filesR
+      else if k = "shapes" then let _ ← shapesR
+      else let _ ← otherR
+    let attrs ← otherR
+    let groups := (← filesR) ++ (← shapesR)
+    let order := allKinds.filter (· ≠ "other")
     pure ⟨attrs, order.filterMap (fun k => (groups.find? (fun g => g.1 = k)))⟩
   | _ => .error .key
 
